@@ -140,7 +140,12 @@ def eval_case(case) -> Outcome:
     from OpenPinch.lib.enums import GraphType
 
     out = Outcome()
-    an = P.Analysis(case, out, "C13")
+    if case.get("decoy"):
+        # another problem (other zone names) is analysed first in the same process: the graph sets returned for the
+        # case must still be exactly those of its own records
+        S.run_service(DECOY)
+        out.labels.add("after-another-analysis")
+    an = P.Analysis(case, out, "C13", clear=not case.get("decoy"))
     if not an.ok:
         return out
     P.classify_site(out, an)
@@ -260,7 +265,24 @@ def eval_case(case) -> Outcome:
     return out
 
 
+DECOY = {
+    "streams": [
+        {"zone": "ZZ decoy", "name": "H", "t_supply": 150.0, "t_target": 60.0, "heat_flow": 900.0, "dt_cont": 5.0, "htc": 1.0},
+        {"zone": "ZZ other", "name": "C", "t_supply": 40.0, "t_target": 120.0, "heat_flow": 700.0, "dt_cont": 5.0, "htc": 1.0},
+    ],
+    "utilities": [],
+}
+
+
+def with_decoy(base):
+    return st.tuples(base, st.booleans()).map(lambda t: dict(t[0], decoy=t[1]))
+
+
 def strategy(tier):
+    return with_decoy(_strategy(tier))
+
+
+def _strategy(tier):
     mx = 8 if tier == "quick" else 12
     opts = st.fixed_dictionaries({}, optional={"DO_BALANCED_CC": st.booleans(), "DO_VERTICAL_GCC": st.booleans(), "DO_ASSITED_HT": st.booleans()}).map(lambda d: d or None)
     return st.one_of(
@@ -272,4 +294,4 @@ def strategy(tier):
 
 
 PARTS = [Part("service", eval_case, {"quick": 800, "thorough": 20000}, strategy=strategy, min_nontrivial={"quick": 300, "thorough": 8000})]
-MIN_SHARE = {"service": {"multi-zone": 0.2, "DO_VERTICAL_GCC=True": 0.067, "DO_ASSITED_HT=True": 0.058, "DO_BALANCED_CC=False": 0.087}}
+MIN_SHARE = {"service": {"after-another-analysis": 0.25, "multi-zone": 0.2, "DO_VERTICAL_GCC=True": 0.067, "DO_ASSITED_HT=True": 0.058, "DO_BALANCED_CC=False": 0.087}}
